@@ -35,7 +35,10 @@ def case(draw):
     n = len(net["points"])
     k = draw(st.integers(1, n))
     subset = sorted(draw(st.permutations(list(range(n))))[:k])
-    return {"net": net, "alg": draw(st.sampled_from(ALGS)), "subset": subset}
+    # which coordinates of a chosen point carry the datum: both groups, or only its position, or only its height
+    # (adj="XYz", adj="xyZ" ... in 3D networks)
+    groups = [[draw(st.sampled_from(["both", "both", "xy", "z"])) for _ in range(n)] for _ in range(2)]
+    return {"net": net, "alg": draw(st.sampled_from(ALGS)), "subset": subset, "groups": groups}
 
 
 def null_space(net):
@@ -58,11 +61,23 @@ def null_space(net):
     return G, cols, A.shape[1] - rank
 
 
-def subset_resolves(net, G, cols, d, ids):
-    rows = []
-    P = nm.pmap(net)
+def selection(net, ids, groups):
+    """set of (point id, 'xy' | 'z') that carry the datum"""
+    idx = {p["id"]: i for i, p in enumerate(net["points"])}
+    sel = set()
     for pid in ids:
-        for c in ("E", "N", "H"):
+        g = groups[idx[pid]] if groups else "both"
+        if g in ("both", "xy"):
+            sel.add((pid, "xy"))
+        if g in ("both", "z"):
+            sel.add((pid, "z"))
+    return sel
+
+
+def subset_resolves(net, G, cols, d, sel):
+    rows = []
+    for pid, g in sorted(sel):
+        for c in (("E", "N") if g == "xy" else ("H",)):
             if (pid, c) in cols:
                 rows.append(cols[(pid, c)])
     if len(rows) < d:
@@ -71,12 +86,12 @@ def subset_resolves(net, G, cols, d, ids):
     return len(sg) >= d and sg[d - 1] >= 0.05
 
 
-def with_constraints(net, ids):
+def with_constraints(net, sel):
     n2 = copy.deepcopy(net)
     for p in n2["points"]:
         for k in ("xy", "z"):
             if p[k] in ("adj", "constr"):
-                p[k] = "constr" if p["id"] in ids else "adj"
+                p[k] = "constr" if (p["id"], k) in sel else "adj"
     return n2
 
 
@@ -116,13 +131,17 @@ def oracle(c, stats):
     stats.label("defect=%d" % d, "dims=" + net["dims"])
     ids1 = [p["id"] for p in net["points"] if p["xy"] == "constr" or p["z"] == "constr"]
     ids2 = [net["points"][i]["id"] for i in c["subset"]]
-    if d > 0 and not (subset_resolves(net, G, cols, d, ids1) and subset_resolves(net, G, cols, d, ids2)):
+    gr = c.get("groups") or [None, None]
+    sel1, sel2 = selection(net, ids1, gr[0]), selection(net, ids2, gr[1])
+    if d > 0 and not (subset_resolves(net, G, cols, d, sel1) and subset_resolves(net, G, cols, d, sel2)):
         stats.label("discarded_subset_not_admissible")
         return []
-    if set(ids1) != set(ids2):
+    if sel1 != sel2:
         stats.label("subsets_differ")
-    n1 = with_constraints(net, set(ids1))
-    n2 = with_constraints(net, set(ids2))
+    if net["dims"] == "3d" and any(((pid, "xy") in sl) != ((pid, "z") in sl) for sl in (sel1, sel2) for pid in ids1 + ids2):
+        stats.label("mixed_xy_z_constraints")
+    n1 = with_constraints(net, sel1)
+    n2 = with_constraints(net, sel2)
     fails = []
     outs = []
     for tag, nn in (("datum1", n1), ("datum2", n2)):
